@@ -1,3 +1,75 @@
 import PysphVerif.Driver.Common
-/-! Line-protocol driver for C10 (stub: not built yet). -/
-def main : IO Unit := PysphVerif.Driver.loopPure (fun _ => "bad-op")
+import PysphVerif.Model.SolverLoop
+/-!
+Line protocol for C10 (Float, bit patterns):
+
+  `solve dt=<f> tf=<f> pfreq=<nat> out=<fl> ndamp=<nat> damp=<fl> max=<nat> adaptive=<0|1> seq=<list of N|f>`
+
+`damp` lists the damping factors for count = 0 … ndamp-1 (the harness evaluates
+the documented sine formula), `seq` the values successive calls of
+`integrator.compute_time_step` return (`N` = None; `None` after the list ends).
+`EPSILON` is the module constant 2⁻⁵¹ and is NOT taken from the line.
+
+Answer: the event trace, blank separated:
+  `d:<t>:<count>:<solver_data dt>`  dump_output
+  `b` / `a`                         pre / post step callbacks
+  `s:<t>:<dt>`                      integrator.step(t, dt)
+and finally `e:<t>:<count>:<dt>` (the solver's t, count, dt after solve()).
+-/
+namespace PysphVerif.Driver.C10
+open PysphVerif.Wire PysphVerif.SolverLoop
+
+/-- `numpy.finfo(float).eps*2` = 2⁻⁵¹ -/
+def EPSILON : Float := Float.ofBits 0x3CC0000000000000
+
+def nan : Float := Float.ofBits 0x7FF8000000000000
+
+def parseSeqItem (s : String) : Option (Option Float) :=
+  if s = "N" then some none else (parseFloatBits? s).map some
+
+def parseBool? (s : String) : Option Bool :=
+  if s = "0" then some false else if s = "1" then some true else none
+
+def showEv : Ev Float → String
+  | Ev.dump s => s!"d:{showFloatBits s.t}:{s.count}:{showFloatBits (solverData s)}"
+  | Ev.pre => "b"
+  | Ev.step s => s!"s:{showFloatBits s.t}:{showFloatBits s.dt}"
+  | Ev.post => "a"
+
+def handle (line : String) : String :=
+  match tokens line with
+  | "solve" :: rest =>
+    let kv := kvs rest
+    let r : Option String := do
+      let dt ← (lookup kv "dt") >>= parseFloatBits?
+      let tf ← (lookup kv "tf") >>= parseFloatBits?
+      let pfreq ← (lookup kv "pfreq") >>= parseNat?
+      let out ← (lookup kv "out") >>= parseList? parseFloatBits?
+      let ndamp ← (lookup kv "ndamp") >>= parseNat?
+      let damp ← (lookup kv "damp") >>= parseList? parseFloatBits?
+      let mx ← (lookup kv "max") >>= parseNat?
+      let ad ← (lookup kv "adaptive") >>= parseBool?
+      let seq ← (lookup kv "seq") >>= parseList? parseSeqItem
+      if pfreq = 0 then none
+      else if damp.length ≠ ndamp then none
+      else
+        let dampA := damp.toArray
+        let seqA := seq.toArray
+        let c : Cfg Float :=
+          { tf := tf, EPS := EPSILON, pfreq := pfreq, outT := out, nDamp := ndamp,
+            maxSteps := mx, adaptive := ad,
+            dampFac := fun k => dampA.getD k nan,
+            adapt := fun k => seqA.getD k none,
+            cast := Float.ofNat }
+        let r := solve c dt
+        let evs := r.2.map showEv
+        let fin := s!"e:{showFloatBits r.1.t}:{r.1.count}:{showFloatBits r.1.dt}"
+        pure (" ".intercalate (evs ++ [fin]))
+    match r with
+    | some s => s
+    | none => "bad-op"
+  | _ => "bad-op"
+
+end PysphVerif.Driver.C10
+
+def main : IO Unit := PysphVerif.Driver.loopPure PysphVerif.Driver.C10.handle
